@@ -34,7 +34,7 @@ META = {
 }
 
 MANIFEST = {
-    'level_text': 'In-place modification scenarios executed by the verifier on the real open_fp / modify_file_in_place code with SYMBOLIC new and old contents: the backing image file must afterwards decode (independent readers) to the same trees in every namespace with the file showing the new content and length under all its ISO9660 / Joliet / UDF names and every other file unchanged, be structurally valid, and differ from the old image file only inside the file sectors, the records / file entries of its names and the volume-space-size fields; refused requests (sector count change, directory, missing) leave the file byte-identical. One defect found and repaired (K17: El Torito boot image raised InternalError after writing).',
+    'level_text': 'In-place modification scenarios executed by the verifier on the real open_fp / modify_file_in_place code with SYMBOLIC new and old contents: the backing image file must afterwards decode (independent readers) to the same trees in every namespace with the file showing the new content and length under all its ISO9660 / Joliet / UDF names and every other file unchanged, be structurally valid, and differ from the old image file only inside the file sectors, the records / file entries of its names and the volume-space-size fields; the same on random images (4 quick / 70 thorough) with victim and length chosen by the seed; refused requests (sector count change, directory, missing) leave the file byte-identical. One defect found and repaired (K17: El Torito boot image raised InternalError after writing).',
     'level_note': 'Bounded table of images, victims and lengths; unbounded in contents. Trusted: pyvc, the independent readers. Function-level: utils.ceiling_div (sector count) proved for all integers.',
     'design_ref': 'DESIGN.md section 4 C17',
 }
